@@ -201,7 +201,7 @@ fn drive<Wr: Writer<SimWorld>>(
 
 fn custom_fos(_f: &cucumber::gherkin::Feature, _r: Option<&cucumber::gherkin::Rule>, s: &cucumber::gherkin::Scenario) -> bool {
     // custom predicate: fail skipped steps of scenarios whose name contains an even digit sum... keep simple: names ending in 0/2/4
-    s.name.chars().rev().find(char::is_ascii_digit).is_some_and(|c| (c as u8 - b'0') % 2 == 0)
+    custom_fos_name(&crate::plan::scenario_identity(s))
 }
 
 pub fn custom_fos_name(name: &str) -> bool {
